@@ -1052,6 +1052,23 @@ where
                 // Bind
                 'B' => {
                     if query_router.query_parser_enabled() {
+                        // A Bind of a statement that was prepared earlier runs that statement:
+                        // the batch is routed for it, as it was when the statement was parsed.
+                        if let Some(parse_message) = self.parse_message_of_bound_statement(&message) {
+                            if let Ok(ast) = query_router.parse(&parse_message) {
+                                let earlier_statement_in_batch =
+                                    self.extended_protocol_data_buffer.iter().any(|data| {
+                                        matches!(
+                                            data,
+                                            ExtendedProtocolData::Parse { .. }
+                                                | ExtendedProtocolData::Bind { .. }
+                                        )
+                                    });
+                                let _ = query_router
+                                    .infer_for_batch(&ast, earlier_statement_in_batch);
+                            }
+                        }
+
                         query_router.infer_shard_from_bind(&message);
                     }
 
@@ -1978,6 +1995,27 @@ where
 
     /// Rewrite the Bind (F) message to use the prepared statement name
     /// saved in the client cache.
+    /// The Parse message of the named statement a Bind refers to, when that statement was
+    /// prepared in an earlier batch (one parsed in this batch has been looked at already).
+    fn parse_message_of_bound_statement(&self, bind: &BytesMut) -> Option<BytesMut> {
+        if !self.prepared_statements_enabled {
+            return None;
+        }
+
+        let client_given_name = Bind::get_name(bind).ok()?;
+        let (parse, _) = self.prepared_statements.get(&client_given_name)?;
+
+        let parsed_in_this_batch = self.extended_protocol_data_buffer.iter().any(|data| {
+            matches!(data, ExtendedProtocolData::Parse { metadata: Some((buffered, _)), .. } if buffered.name == parse.name)
+        });
+
+        if parsed_in_this_batch {
+            return None;
+        }
+
+        BytesMut::try_from((**parse).clone()).ok()
+    }
+
     async fn buffer_bind(&mut self, message: BytesMut) -> Result<(), Error> {
         // Avoid parsing if prepared statements not enabled
         if !self.prepared_statements_enabled {
